@@ -12,7 +12,7 @@ use std::ffi::CString;
 pub const INFO: CheckInfo = CheckInfo {
     prop: "C18",
     level: "fault_enumeration",
-    rule: "fault enumeration: a set of API call histories (init/calls/end, copy mid-stream with both streams continued, reset, params, dictionary, failed init, inflateBackInit/End, several streams sharing one allocator, streams given only one of zalloc/zfree; gzopen/gzdopen -> gzbuffer -> read|write|getc|ungetc|puts|seek|flush -> close, reading a gzip / plain / empty / one-byte / two-member / garbage-trailed / truncated file, writing in modes wb / ab / wT / wb9f) is first run with a counting allocator to learn the number N of allocation requests, then re-run once for EVERY k in [0,N) with only request k failing and once for every k with all requests from k on failing. Oracle: the call during which a request failed reports Z_MEM_ERROR (a NULL gz handle / error return for gz calls); End on the faulted z_stream is safe and re-initialisation works; at the end every block has been released exactly once with the right opaque and nothing else was released (guard-paged allocator, freed blocks unmapped so any use-after-free faults; byte-balanced global allocator for the gz layer); a bystander stream created before the fault produces the same output as when run alone. Family init-verdict-balanced: inflateInit2_ with every windowBits in -72..=136 and extremes, deflateInit2_ over windowBits -20..=48 x 10 settings of the other arguments, inflateBackInit_ over -2..=24 x {window, NULL}, each under {no fault, request 0 fails, request 1 fails, every request fails}: a rejected init holds no block when it returns and End releases nothing more. distinct_nontrivial = distinct (history, fault plan, per-step status) outcomes.",
+    rule: "fault enumeration: a set of API call histories (init/calls/end, copy mid-stream with both streams continued, reset, params, dictionary, failed init, inflateBackInit/End, several streams sharing one allocator, streams given only one of zalloc/zfree; gzopen/gzdopen -> gzbuffer -> read|write|getc|ungetc|puts|seek|flush -> close, reading a gzip / plain / empty / one-byte / two-member / garbage-trailed / truncated file, writing in modes wb / ab / wT / wb9f) is first run with a counting allocator to learn the number N of allocation requests, then re-run once for EVERY k in [0,N) with only request k failing and once for every k with all requests from k on failing. Oracle: the call during which a request failed reports Z_MEM_ERROR (a NULL gz handle / error return for gz calls); End on the faulted z_stream is safe and re-initialisation works; at the end every block has been released exactly once with the right opaque and nothing else was released (guard-paged allocator, freed blocks unmapped so any use-after-free faults; byte-balanced global allocator for the gz layer); a bystander stream created before the fault produces the same output as when run alone. Family init-verdict-balanced: inflateInit2_ with every windowBits in -72..=136 and extremes, deflateInit2_ over windowBits -20..=48 x 10 settings of the other arguments, inflateBackInit_ over -2..=24 x {window, NULL}, each under {no fault, request 0 fails, request 1 fails, every request fails}: a rejected init holds no block when it returns and End releases nothing more. Family end-in-every-state: a gzip stream with header fields around the pending-buffer size ended after k = 0..=5 deflate calls under 1-, 2-, 7-byte and ample rooms: End returns Z_OK or Z_DATA_ERROR, releases everything and clears strm->state. distinct_nontrivial = distinct (history, fault plan, per-step status) outcomes.",
     assumptions: &["histories outside the enumerated set and simultaneous multiple independent failures other than 'all from k on' are not covered", "the gz layer uses the Rust global allocator, which the harness wraps (counting, failing, byte balance) for the duration of a history"],
     bound_quick: "about 70 hand-written C-API histories plus every generated history of <= 2 (3) abstract operations (calls, dictionary, params, reset, copy-and-continue, copy-and-end) on 3 deflate / 3 inflate configurations; gz: every history of <= 2 operations over 10 read / 9 write operations x 7 file contents / 4 open modes x {by fd, by path}; every fail-at-k and fail-from-k",
     bound_thorough: "gz histories of <= 4 operations; the same histories with more configurations and longer call lists",
@@ -712,6 +712,70 @@ pub fn run(ctx: &mut Ctx) {
                         Ok(())
                     },
                 );
+            }
+        }
+    }
+    // deflateEnd in EVERY state a deflate call can return in: a gzip stream whose header (extra / name / comment of
+    // lengths around the 512-byte pending buffer of memLevel 1, with and without header CRC) is written through 1-,
+    // 2-, 7-byte and ample rooms, ended after k calls for every small k: everything obtained is released by that End
+    {
+        use crate::refs::wrap::GzFields;
+        for name_len in (0..=40).step_by(8).chain(440..=540) {
+            for hcrc in [false, true] {
+                for (fields, extra_len, comment_len) in [(0u8, 0usize, 0usize), (1, 30, 0), (2, 0, 25)] {
+                    if fields != 0 && name_len % 3 != 0 {
+                        continue;
+                    }
+                    for room in [1usize, 2, 7, 4096] {
+                        for k in 0..=5usize {
+                            ctx.case(
+                                "end-in-every-state",
+                                || format!("deflateInit2(gzip, memLevel 1) ; deflateSetHeader(name {name_len} bytes, extra {extra_len}, comment {comment_len}, hcrc {hcrc}) ; {k} x deflate(Z_NO_FLUSH, 50 bytes, room {room}) ; deflateEnd"),
+                                |c| unsafe {
+                                    c.exec();
+                                    let mut ctl = AllocCtl::new(0xD3);
+                                    ctl.strict_uaf = true;
+                                    let mut z = wired(&mut ctl);
+                                    let r = Rs::deflateInit2_(&mut *z, 6, 8, 31, 1, 0, Rs::zlibVersion(), STREAM_SIZE);
+                                    if r != Z_OK {
+                                        return Err(format!("deflateInit2 returned {}", rc_name(r)));
+                                    }
+                                    let f = GzFields { os: 3, hcrc, name: if name_len > 0 { Some(lcg_bytes(7, name_len).into_iter().map(|b| b | 1).collect()) } else { None }, extra: if extra_len > 0 { Some(vec![5; extra_len]) } else { None }, comment: if comment_len > 0 { Some(vec![b'c'; comment_len]) } else { None }, ..Default::default() };
+                                    let mut hold = make_gz_header(&f);
+                                    let r = Rs::deflateSetHeader(&mut *z, &mut *hold.head);
+                                    if r != Z_OK {
+                                        return Err(format!("deflateSetHeader returned {}", rc_name(r)));
+                                    }
+                                    let mut rets = vec![];
+                                    for i in 0..k {
+                                        z.next_in = env.ain.put(&plain[i * 50..i * 50 + 50], true);
+                                        z.avail_in = 50;
+                                        z.next_out = env.aout.at_end(room);
+                                        z.avail_out = room as u32;
+                                        rets.push(Rs::deflate(&mut *z, Z_NO_FLUSH) as u32);
+                                    }
+                                    let e = Rs::deflateEnd(&mut *z);
+                                    if e != Z_OK && e != Z_DATA_ERROR {
+                                        return Err(format!("deflateEnd returned {}", rc_name(e)));
+                                    }
+                                    if !ctl.errors.is_empty() {
+                                        return Err(format!("allocator discipline: {:?}", ctl.errors));
+                                    }
+                                    if !ctl.live.is_empty() || ctl.total_allocs != ctl.total_frees {
+                                        return Err(format!("deflateEnd returned {} but {} block(s) ({} bytes) obtained from the caller's allocator were not released", rc_name(e), ctl.live.len(), ctl.live_bytes()));
+                                    }
+                                    if !z.state.is_null() {
+                                        return Err(format!("deflateEnd returned {} and left strm->state set", rc_name(e)));
+                                    }
+                                    rets.push(e as u32);
+                                    c.outcome(hash_u32s(&rets));
+                                    c.validated();
+                                    Ok(())
+                                },
+                            );
+                        }
+                    }
+                }
             }
         }
     }
